@@ -21,9 +21,16 @@ structure Rnd.Sound (R : Rnd) : Prop where
   dn_le : ∀ y : Rat, 1 ≤ y → R.dn y ≤ y
   addMul_le : ∀ s c a : Rat, fin (s + c * a) ≤ R.addMul s c a
 
-/-- the absolute values of all coefficients are representable: `assign_r(coeff_i, ±sc_i, ROUND_UP)` is exact -/
+/-- the absolute values of all (non-zero) coefficients are representable:
+`assign_r(coeff_i, ±sc_i, ROUND_UP)` is exact -/
 def CoeffExact (R : Rnd) (e : Nat → Int) : Prop :=
-  ∀ i, R.up ((absI (e i) : Int) : Rat) = fin ((absI (e i) : Int) : Rat)
+  ∀ i, e i ≠ 0 → R.up ((absI (e i) : Int) : Rat) = fin ((absI (e i) : Int) : Rat)
+
+/-- `t relsym q` -/
+def RelSym.holds : RelSym → Rat → Rat → Prop
+  | .le, t, q => t ≤ q
+  | .ge, t, q => q ≤ t
+  | .eq, t, q => t = q
 
 theorem absI_neg (a : Int) : absI (-a) = absI a := by
   unfold absI; split_ifs <;> omega
@@ -33,17 +40,17 @@ theorem absI_neg' {a : Int} (h : a < 0) : absI a = -a := by unfold absI; rw [if_
 theorem absI_nonneg (a : Int) : 0 ≤ absI a := by unfold absI; split_ifs <;> omega
 
 theorem CoeffExact.neg {R : Rnd} {e : Nat → Int} (h : CoeffExact R e) : CoeffExact R (fun i => - e i) := by
-  intro i; simp only [absI_neg]; exact h i
+  intro i hi; simp only [absI_neg]; exact h i (by simpa using hi)
 
 theorem CoeffExact.sc {R : Rnd} {e : Nat → Int} (h : CoeffExact R e) (den : Int) : CoeffExact R (scExpr e den) := by
-  intro i; unfold scExpr; split
-  · exact h i
-  · simp only [absI_neg]; exact h i
+  intro i hi; unfold scExpr at hi ⊢; split
+  · rename_i hd; rw [if_pos hd] at hi; exact h i hi
+  · rename_i hd; rw [if_neg hd] at hi; simp only [absI_neg]; exact h i (by simpa using hi)
 
 theorem Rnd.exact_sound : Rnd.exact.Sound :=
   ⟨upId_sound, fun y hy => by simp [Rnd.exact]; linarith, fun y _ => le_refl _, fun s c a => le_rfl' _⟩
 
-theorem Rnd.exact_coeff (e : Nat → Int) : CoeffExact Rnd.exact e := fun _ => rfl
+theorem Rnd.exact_coeff (e : Nat → Int) : CoeffExact Rnd.exact e := fun _ _ => rfl
 
 theorem Rnd.ceil_sound : Rnd.ceil.Sound := by
   refine ⟨upCeil_sound, fun y hy => ?_, fun y _ => ?_, fun s c a => upCeil_sound _⟩
@@ -54,7 +61,7 @@ theorem Rnd.ceil_sound : Rnd.ceil.Sound := by
   · simp only [Rnd.ceil]; exact Rat.floor_le y
 
 theorem Rnd.ceil_coeff (e : Nat → Int) : CoeffExact Rnd.ceil e := by
-  intro i
+  intro i _
   simp only [Rnd.ceil, upCeil]
   have : ((absI (e i) : Int) : Rat).ceil = absI (e i) := Rat.ceil_intCast _
   rw [this]
